@@ -1186,9 +1186,12 @@ class Simulation:
 
             # Get weights, calculate misfit.
             weights = self.data['weights']
-            self._misfit = np.sum(weights*(residual.conj()*residual)).real/2
+            # (Stored as plain number, not as DataArray, so it survives
+            # to_file/from_file and can be stored in any file format.)
+            misfit = np.sum(weights*(residual.conj()*residual)).real/2
+            self._misfit = misfit.data[()]
 
-        return self._misfit.data
+        return self._misfit
 
     def _bcompute(self):
         """Compute bfields asynchronously for all sources and frequencies."""
